@@ -75,14 +75,21 @@ Inductive iop :=
 | IStart (h cb base : nat) (wd : Z)     (* wd: what inotify_add_watch returns; negative = UV error *)
 | IStop (h : nat)
 | IClose (h : nat)
-| IDispatch (evs : list (Z * Z * option nat)).   (* one loop iteration reading these events *)
+| IDispatch (evs : list (Z * Z * option nat))    (* one loop iteration reading these events *)
+| IObs                                          (* uv_is_active, uv_fs_event_getpath of every handle *)
+| IFork (wds : list Z)     (* fork(); what follows, up to IChildEnd, runs in the child, which first calls
+                              uv_loop_fork(); wds: what inotify_add_watch answers on the child's new inotify
+                              descriptor, one per handle restarted *)
+| IChildEnd.               (* the child exits; what follows runs in the parent, from its state at the fork *)
 
 Inductive ievent :=
 | IRet (code : Z)
 | ICb (h cb name : nat) (events : Z) (g_active : bool)
      (* the user callback: handle, callback, file name, event bits; ghost: is the handle active now *)
 | IRm (wd : Z)                           (* inotify_rm_watch + uv__free(w) *)
-| IClosed (h : nat).
+| IClosed (h : nat)
+| IObsE (l : list (bool * option nat))   (* per handle: active, base name of the path uv_fs_event_getpath gives *)
+| IChildExit.
 
 (* maybe_free_watcher_list *)
 Definition maybe_free (s : ist) (wd : Z) : ist * list ievent :=
@@ -136,7 +143,11 @@ Definition iapi (s : ist) (o : iop) : ist * list ievent :=
       then let '(s', ev) := ev_stop s h in (s', ev ++ [IRet 0]) else (s, [])
   | IClose h =>
       if ivalid s h && negb (e_closing (gete s h)) then ev_close s h else (s, [])
-  | IDispatch _ => (s, [])
+  | IObs =>
+      (s, [IObsE (map (fun e => (e_active e,
+                                if e_active e then option_map w_base (find_w (wls s) (e_wd e)) else None))
+                      (ehs s))])
+  | _ => (s, [])
   end.
 
 Fixpoint iapis (s : ist) (os : list iop) : ist * list ievent :=
@@ -216,15 +227,76 @@ Definition run_eclosing (s : ist) : ist * list ievent :=
                 (eclosing s) s) [],
    map IClosed (eclosing s)).
 
-Fixpoint irun (s : ist) (os : list iop) (beh : nat -> list iop) (cnt : nat) : ist * list ievent :=
+(* uv__inotify_fork, linux.c 2489-2548 (after uv__io_fork has closed the inherited inotify descriptor):
+   for every watcher list, in wd order (RB_FOREACH), with [iterating] set: every handle is stopped and
+   remembered together with a copy of the list's path; the list is freed; then every remembered handle
+   is started again with that path (on the new inotify descriptor that the first start opens). *)
+Fixpoint insert_w (w : wlist) (l : list wlist) : list wlist :=
+  match l with
+  | [] => [w]
+  | x :: l' => if w_wd w <? w_wd x then w :: l else x :: insert_w w l'
+  end.
+Definition sort_w (l : list wlist) : list wlist := fold_right insert_w [] l.
+
+Definition set_iter (s : ist) (wd : Z) (b : bool) : ist :=
+  set_wls s (upd_w (wls s) wd (fun w => mkW (w_wd w) (w_base w) (w_hs w) (w_local w) b)).
+
+Definition stop_all (s : ist) (hl : list nat) : ist * list ievent :=
+  fold_left (fun acc h => let '(s0, e0) := acc in let '(s1, e1) := ev_stop s0 h in (s1, e0 ++ e1)) hl (s, []).
+
+Definition fork_list (acc : ist * list ievent) (w : wlist) : ist * list ievent :=
+  let '(s, e) := acc in
+  let '(s1, e1) := stop_all (set_iter s (w_wd w) true) (w_hs w) in
+  let '(s2, e2) := maybe_free (set_iter s1 (w_wd w) false) (w_wd w) in
+  (s2, e ++ e1 ++ e2).
+
+Fixpoint restart (tmp : list (nat * nat)) (wds : list Z) (s : ist) : ist * Z :=
+  match tmp with
+  | [] => (s, 0)
+  | (h, b) :: t =>
+      let wd := match wds with w :: _ => w | [] => -9 end in
+      let '(s', r) := ev_start s h (e_cb (gete s h)) b wd in
+      if r =? 0 then restart t (tl wds) s' else (s', r)
+  end.
+
+Definition fork_tmp (s : ist) : list (nat * nat) :=
+  flat_map (fun w => map (fun h => (h, w_base w)) (w_hs w)) (sort_w (wls s)).
+
+Definition inotify_fork (s : ist) (wds : list Z) : ist * list ievent :=
+  let '(s1, e1) := fold_left fork_list (sort_w (wls s)) (s, []) in
+  let '(s2, r) := restart (fork_tmp s) wds s1 in
+  (s2, e1 ++ [IRet r]).
+
+Definition child_cb_offset : nat := 1000.
+
+(* [par]: inside a child, the parent's state and callback count at the fork *)
+Fixpoint irun_p (par : option (ist * nat)) (s : ist) (os : list iop) (beh : nat -> list iop) (cnt : nat)
+  : ist * list ievent :=
   match os with
   | [] => (s, [])
   | IDispatch evs :: os' =>
       let '(s1, e1, n1) := dispatch s evs beh cnt in
       let '(s2, e2) := run_eclosing s1 in
-      let '(s3, e3) := irun s2 os' beh n1 in
+      let '(s3, e3) := irun_p par s2 os' beh n1 in
       (s3, e1 ++ e2 ++ e3)
+  | IFork wds :: os' =>
+      match par with
+      | None =>
+          let '(sc, ec) := inotify_fork s wds in
+          (* the child's callbacks are numbered from the fork point on, in their own range *)
+          let '(s3, e3) := irun_p (Some (s, cnt)) sc os' beh (cnt + child_cb_offset) in
+          (s3, ec ++ e3)
+      | Some _ => irun_p par s os' beh cnt              (* no fork inside the child *)
+      end
+  | IChildEnd :: os' =>
+      match par with
+      | Some (sp, np) => let '(s3, e3) := irun_p None sp os' beh np in (s3, IChildExit :: e3)
+      | None => irun_p par s os' beh cnt
+      end
   | o :: os' =>
       let '(s1, e1) := iapi s o in
-      let '(s2, e2) := irun s1 os' beh cnt in (s2, e1 ++ e2)
+      let '(s2, e2) := irun_p par s1 os' beh cnt in (s2, e1 ++ e2)
   end.
+
+Definition irun (s : ist) (os : list iop) (beh : nat -> list iop) (cnt : nat) : ist * list ievent :=
+  irun_p None s os beh cnt.
